@@ -149,6 +149,16 @@ def sqlittle_rows(res):
     return out
 
 
+def lowlevel_rows(res):
+    """rows of Table.Scan on t(id INTEGER PRIMARY KEY, v, pad): [rowid, NULL, v, pad]"""
+    if res.get("err") or res.get("panic"):
+        return None
+    out = []
+    for row in res.get("rows") or []:
+        out.append((int(row[0][1]), int(row[2][1]) if len(row) > 2 and row[2][0] == "i" else None))
+    return out
+
+
 def run_config(v, h, d, ps, mode, sync, tier, rnd, tag, newdb=False, sector=512):
     ensure_shim()
     cdir = os.path.join(d, tag)
@@ -204,7 +214,13 @@ def run_config(v, h, d, ps, mode, sync, tier, rnd, tag, newdb=False, sector=512)
             # nothing to open before the first transaction: only the crash, then a fresh handle
             batches.append({"db": db, "mode": "keep", "ops": [{"op": "exec", "id": i0 + 1, "args": cmd}]})
         else:
-            batches.append({"db": db, "mode": "keep", "ops": [warm, {"op": "exec", "id": i0 + 1, "args": cmd}, dict(sel, id=i0 + 2)]})
+            ops_ = [warm, {"op": "exec", "id": i0 + 1, "args": cmd}, dict(sel, id=i0 + 2)]
+            if len(exps) % 2 == 1:
+                # one explicit transaction of the low level API with several calls in it: if the first is refused, so must
+                # the following ones be (nothing may be remembered as "already checked")
+                ops_ += [{"op": "rlock", "id": i0 + 5}, {"op": "table_scan", "table": "t", "no_lock": True, "id": i0 + 6},
+                         {"op": "table_scan", "table": "t", "no_lock": True, "id": i0 + 7}, {"op": "runlock", "id": i0 + 8}]
+            batches.append({"db": db, "mode": "keep", "ops": ops_})
         batches2.append({"db": db, "mode": "fresh", "ops": [dict(sel, id=i0 + 3)]})
         exps.append({"k": k, "torn": torn, "dir": xd, "db": db, "i0": i0, "locked": len(exps) % 4 == 1})
     req, out = os.path.join(cdir, "req.ndjson"), os.path.join(cdir, "res.ndjson")
@@ -264,6 +280,11 @@ def run_config(v, h, d, ps, mode, sync, tier, rnd, tag, newdb=False, sector=512)
         lines += abstract_events(calls, ps, x["k"], x["torn"], modified, orig_pages, sector)
         lines.append({"ev": "crash", "sqlittle": fresh, "aged": aged, "sqlite": sq})
         info.append((len(lines), x, fresh, aged, sq))
+        if (x["i0"] + 7) in res:
+            # the second call inside one explicit transaction (a second judgement of the same crash state)
+            aged2 = classify(lowlevel_rows(res[x["i0"] + 7]))
+            lines.append({"ev": "crash", "sqlittle": fresh, "aged": aged2, "sqlite": sq})
+            info.append((len(lines), x, fresh, aged2, sq))
         shutil.rmtree(x["dir"], ignore_errors=True)
     f = os.path.join(cdir, "crash.ndjson")
     common.write_ndjson(f, lines)
